@@ -43,7 +43,9 @@ OPS = (['su:None', 'su:WARNING', 'su:DEBUG', 'su:file'] + ['sl:' + l for l in ('
        + ['raise:' + v for v in ['None', 'CRITICAL', 'WARNING', 'INFO', 'DEBUG']])
 # operations used only by the random histories (the enumerated alphabet stays at the 20 operations of the design): a level
 # outside the four documented names ("any level"), and the override handed over by position instead of by keyword
-EXTRA_OPS = ['sl:ERROR', 'su:ERROR', 'callpos:CRITICAL', 'callpos:DEBUG', 'callpos:WARNING', 'raisepos:INFO', 'raisepos:CRITICAL']
+EXTRA_OPS = ['sl:ERROR', 'su:ERROR', 'callpos:CRITICAL', 'callpos:DEBUG', 'callpos:WARNING', 'raisepos:INFO', 'raisepos:CRITICAL',
+             'callkw:None', 'callkw:CRITICAL', 'callkw:INFO', 'callkw:DEBUG']
+# (callkw: the data handed over by keyword, X=x. Whatever such a call does - return or fail - it must do in every logger state.)
 
 
 class NullOut:
@@ -72,6 +74,7 @@ class World:
             self.pristine[n] = (list(lg.handlers), lg.level, lg.disabled, lg.propagate)
         self.root_disable = logging.root.manager.disable
         self.base = {'sift': self.run_variant('sift', None)}
+        self.kwbase = {}
 
     def reset(self):
         logging.disable(self.root_disable)
@@ -100,13 +103,21 @@ class World:
                     lg.disabled = False
                     lg.propagate = True
 
-    def run_variant(self, name, verbose, bad=False, positional=False):
+    def run_variant(self, name, verbose, bad=False, positional=False, keyword_data=False):
         S = self.S
         x = self.bad if bad else self.x
         kw = {} if verbose == 'omit' else {'verbose': verbose}
         st = np.random.get_state()
         np.random.seed(99)
         try:
+            if keyword_data:
+                if name == 'sift':
+                    return S.sift(X=x, max_imfs=2, **kw)
+                if name == 'mask_sift':
+                    return S.mask_sift(X=x, max_imfs=2, mask_freqs=.2, nphases=2, **kw)
+                if name == 'ensemble_sift':
+                    return S.ensemble_sift(X=x, max_imfs=2, nensembles=2, **kw)
+                return S.complete_ensemble_sift(X=x, max_imfs=2, nensembles=2, **kw)[0]
             if positional:
                 # verbose in its positional slot (4th of sift, 8th of the ensemble sifts, 11th of mask_sift), everything else equal
                 if name == 'sift':
@@ -127,6 +138,14 @@ class World:
         finally:
             np.random.set_state(st)
         raise ValueError(name)
+
+    def kw_baselines(self):
+        for v in ('sift', 'mask_sift', 'ensemble_sift', 'complete_ensemble_sift'):
+            self.reset()
+            try:
+                self.kwbase[v] = ('returned', self.run_variant(v, 'omit', keyword_data=True))
+            except Exception as e:
+                self.kwbase[v] = ('raised', type(e).__name__)
 
     def handlers(self):
         return [type(h).__name__ + ':' + str(h.get_name()) for h in logging.getLogger('emd').handlers]
@@ -158,7 +177,7 @@ def step(world, model, op, variant='sift'):
     verbose = None if arg == 'None' else arg
     before = world.handlers()
     try:
-        out = world.run_variant(variant, verbose, bad=kind.startswith('raise'), positional=kind.endswith('pos'))
+        out = world.run_variant(variant, verbose, bad=kind.startswith('raise'), positional=kind.endswith('pos'), keyword_data=kind.endswith('kw'))
     except Exception as e:
         after = world.handlers()
         return 'raised', (type(e).__name__, str(e)[:80], before == after)
@@ -182,6 +201,9 @@ def run_history(ctx, world, start, ops, variants=None, record=None):
         if kind in ('callpos', 'raisepos'):
             ctx.count('positional_verbose_calls')
             kind = kind[:-3]
+        if kind == 'callkw':
+            ctx.count('keyword_data_calls')
+            kind = 'kw'
         lvl_before = L.get_level()
         try:
             outcome, detail = step(world, model, op, variant)
@@ -191,6 +213,22 @@ def run_history(ctx, world, start, ops, variants=None, record=None):
             return None
         lvl = L.get_level()
         where = 'history start=%s ops=%s, step %d (%s%s)' % (start, list(ops), i, op, '' if variant == 'sift' else ' on ' + variant)
+        if kind == 'kw':
+            # the reference outcome is the one observed for the same call before any logger existed
+            ref = world.kwbase[variant]
+            got = ('returned',) if outcome == 'returned' else ('raised', detail[0])
+            if got != ref[:len(got)] or (outcome == 'returned' and not np.array_equal(detail[0], ref[1])):
+                ctx.violation('keyword-data-outcome-depends-on-logger', '%s: with the data passed by keyword the call %s, but before any logger '
+                              'was set up the same call %s' % (where, 'returned' if outcome == 'returned' else 'raised ' + detail[0],
+                                                               'returned' if ref[0] == 'returned' else 'raised ' + ref[1]), case)
+                return None
+            if not (detail[1] if outcome == 'returned' else detail[2]):
+                ctx.violation('handlers-changed', '%s: the emd handler list changed across a decorated call' % where, case)
+                return None
+            if lvl != lvl_before:
+                ctx.violation('level-not-restored:keyword-data', '%s: console level was %s before the call and is %s afterwards' % (where, lvl_before, lvl), case)
+                return None
+            ctx.count('keyword_data_outcomes_equal')
         if kind in ('call', 'raise'):
             ctx.count('decorated_calls:' + variant)
             override = not op.endswith(':None')
@@ -245,6 +283,130 @@ def fresh_trace(start, ops, variants, logfile):
     return {'error': (p.stderr or p.stdout)[-300:]}
 
 
+FD_OPS = (['su:None', 'su:DEBUG', 'su:WARNING', 'su:CRITICAL', 'sl:CRITICAL', 'sl:CRITICAL', 'sl:DEBUG', 'sl:INFO', 'disable', 'enable']
+          + ['call:' + v for v in ['None', 'omit', 'omit', 'CRITICAL', 'INFO', 'DEBUG']] + ['raise:omit', 'raise:DEBUG', 'raise:CRITICAL'])
+
+
+def fd_history(ctx, rng, idx):
+    """What actually reaches file descriptor 1 - from this process and from every worker process it starts - is recorded for
+    a history run in a fresh interpreter whose stdout is a file; operations are separated by marker lines. While the logger
+    has never been set up, is disabled, or the level in force is CRITICAL, a decorated call must write nothing at all."""
+    L = int(rng.integers(5, 11))
+    ops = [FD_OPS[int(rng.integers(len(FD_OPS)))] for _ in range(L)]
+    if rng.random() < .5:
+        # the shape that separates "level in force now" from "level in force when some earlier call ran"
+        ops = ['su:DEBUG', 'call:omit', 'sl:CRITICAL', 'call:omit'] + ops[:4] if rng.random() < .5 else \
+              ['su:CRITICAL', 'call:DEBUG', 'call:omit'] + ops[:5]
+    variants = [gens.pick(rng, ['sift', 'mask_sift', 'ensemble_sift', 'complete_ensemble_sift', 'ensemble_sift', 'mask_sift']) for _ in ops]
+    nproc = [int(gens.pick(rng, [1, 2, 2, 3])) for _ in ops]
+    fd_run(ctx, {'ops': ops, 'variants': variants, 'nprocesses': nproc}, '%d_%d' % (ctx.shard, idx))
+
+
+def replay_fd(ctx, case):
+    os.makedirs(os.path.join(WORK, 'C20'), exist_ok=True)
+    fd_run(ctx, {k: case[k] for k in ('ops', 'variants', 'nprocesses')}, 'replay')
+
+
+def fd_run(ctx, spec, tag):
+    ops, variants, nproc = spec['ops'], spec['variants'], spec['nprocesses']
+    case = dict(spec, kind='fd')
+    out = os.path.join(WORK, 'C20', 'fd_%s.out' % tag)
+    env = dict(os.environ, EMD_REPO=REPO, PYTHONPATH=VERIF)
+    try:
+        with open(out, 'wb') as f:
+            p = subprocess.run([sys.executable, '-W', 'ignore', '-m', 'emdverif.props.C20', '--fd', json.dumps(spec)],
+                               stdout=f, stderr=subprocess.PIPE, timeout=300, env=env, cwd=VERIF)
+        data = open(out, 'rb').read().decode('utf8', 'replace')
+    except subprocess.TimeoutExpired:
+        ctx.count('fd_watchdog')
+        return
+    finally:
+        try:
+            os.unlink(out)
+        except OSError:
+            pass
+    if p.returncode or '@@end@@' not in data:
+        ctx.count('fd_harness_error')
+        ctx.note('fd history failed: %s' % p.stderr.decode('utf8', 'replace')[-300:])
+        return
+    ctx.count('fd_histories')
+    ctx.case(digest('fd', ops, variants, nproc), True)
+    segs = data.split('@@')
+    seg = {segs[i]: segs[i + 1] for i in range(1, len(segs) - 1, 2)}
+    setup, level, disabled = False, None, False
+    for i, op in enumerate(ops):
+        kind, _, arg = op.partition(':')
+        text = seg.get(str(i), '').strip()
+        if kind == 'su':
+            setup, level = True, (20 if arg == 'None' else LEVELS[arg])
+        elif kind == 'sl':
+            level = LEVELS[arg] if setup else level
+        elif kind == 'disable':
+            disabled = True
+        elif kind == 'enable':
+            disabled = False
+        else:
+            eff = LEVELS[arg] if (arg in LEVELS and setup) else level
+            ctx.count('fd_calls_observed')
+            if nproc[i] > 1 and variants[i] != 'sift':
+                ctx.count('fd_calls_with_worker_processes')
+            if (not setup) or disabled or eff == 50:
+                ctx.count('fd_silent_calls_checked')
+                if text:
+                    why = 'never set up' if not setup else ('disabled' if disabled else 'level in force CRITICAL')
+                    ctx.violation('output-while-silenced:' + ('workers' if nproc[i] > 1 and variants[i] != 'sift' else 'single-process'),
+                                  'fd history %s: step %d (%s on %s, nprocesses=%d) wrote %d bytes to standard output although the logger was %s; '
+                                  'first line: %r' % (ops, i, op, variants[i], nproc[i], len(text), why, text.splitlines()[0][:120]), case)
+                    return
+            elif eff <= 20 and text:
+                ctx.count('fd_audible_calls_seen')
+
+
+def fd_main(spec):
+    """Fresh interpreter, real standard output (a file): apply the operations, separated by marker lines written to fd 1."""
+    from emdverif.harness import bootstrap
+    bootstrap()
+    import emd
+    L, S = emd.logger, emd.sift
+    x = np.sin(np.arange(40) / 2.3) + .3 * np.cos(np.arange(40) / 0.9) + np.arange(40) / 50
+    bad = np.zeros((40, 2, 3))
+    np.random.seed(5)
+    for i, op in enumerate(spec['ops']):
+        sys.stdout.flush()
+        os.write(1, ('\n@@%d@@\n' % i).encode())
+        kind, _, arg = op.partition(':')
+        v, npr = spec['variants'][i], spec['nprocesses'][i]
+        if kind == 'su':
+            L.set_up(level=None if arg == 'None' else arg)
+        elif kind == 'sl':
+            L.set_level(arg)
+        elif kind == 'disable':
+            L.disable()
+        elif kind == 'enable':
+            L.enable()
+        else:
+            kw = {} if arg == 'omit' else {'verbose': None if arg == 'None' else arg}
+            d = bad if kind == 'raise' else x
+            try:
+                if v == 'sift':
+                    S.sift(d, max_imfs=2, **kw)
+                elif v == 'mask_sift':
+                    S.mask_sift(d, max_imfs=2, mask_freqs=.2, nphases=2, nprocesses=npr, **kw)
+                elif v == 'ensemble_sift':
+                    S.ensemble_sift(d, max_imfs=2, nensembles=3, nprocesses=npr, **kw)
+                else:
+                    S.complete_ensemble_sift(d, max_imfs=2, nensembles=3, nprocesses=npr, **kw)
+            except ValueError:
+                if kind != 'raise':
+                    raise
+        sys.stdout.flush()
+    sys.stdout.flush()
+    os.write(1, b'\n@@end@@\n')
+
+
+NFD = {'quick': 96, 'thorough': 960}
+
+
 def run_shard(ctx):
     from ..harness import bootstrap
     rng = ctx.rng
@@ -257,6 +419,7 @@ def run_shard(ctx):
         for v in ('mask_sift', 'ensemble_sift', 'complete_ensemble_sift'):
             world.reset()
             world.base[v] = world.run_variant(v, 'omit')
+        world.kw_baselines()
         kept = []
         # random part first (bounded), then the exhaustive part (always completes)
         n = NRANDOM[ctx.tier] // ctx.nshards
@@ -268,7 +431,7 @@ def run_shard(ctx):
             ops = [allops[int(rng.integers(len(allops)))] for _ in range(L)]
             variants = [gens.pick(rng, ['sift', 'sift', 'mask_sift', 'ensemble_sift', 'complete_ensemble_sift']) for _ in range(L)]
             start = gens.pick(rng, ['never', 'setup'])
-            nontriv = any(o.split(':')[0] in ('call', 'raise', 'callpos', 'raisepos') and not o.endswith(':None') for o in ops)
+            nontriv = any(o.split(':')[0] in ('call', 'raise', 'callpos', 'raisepos', 'callkw') and not o.endswith(':None') for o in ops)
             ctx.case(digest(start, ops, variants), nontriv)
             tr = run_history(ctx, world, start, ops, variants)
             ctx.count('random_histories')
@@ -292,6 +455,11 @@ def run_shard(ctx):
         world.reset()
     finally:
         sys.stdout = old
+    # what reaches file descriptor 1, including from worker processes
+    for i in range(NFD[ctx.tier] // ctx.nshards):
+        if ctx.time_left() < 5:
+            break
+        fd_history(ctx, rng, i)
     # fidelity of the in-process reset
     for start, ops, variants, tr in kept:
         ft = fresh_trace(start, ops, variants, logfile + '.fresh')
@@ -317,13 +485,16 @@ def finalize(agg, tier):
         r.append('%d of %d fresh-interpreter replays disagree with the in-process trace (logger reset not faithful)'
                  % (c['fresh_process_mismatch'], c.get('fresh_process_replays', 0)))
     for k, need in [('fresh_process_replays', 8), ('calls_with_override_before_setup', 100), ('raising_calls', 500), ('results_equal_baseline', 1000),
-                    ('decorated_calls:mask_sift', 50), ('decorated_calls:ensemble_sift', 50), ('decorated_calls:complete_ensemble_sift', 50)]:
+                    ('fd_silent_calls_checked', 40), ('fd_calls_with_worker_processes', 40), ('fd_audible_calls_seen', 10),
+                    ('keyword_data_outcomes_equal', 100), ('decorated_calls:mask_sift', 50), ('decorated_calls:ensemble_sift', 50), ('decorated_calls:complete_ensemble_sift', 50)]:
         if c.get(k, 0) < need:
             r.append('%s: %d < %d' % (k, c.get(k, 0), need))
     return r
 
 
 def replay(ctx, case):
+    if case.get('kind') == 'fd':
+        return replay_fd(ctx, case)
     old = sys.stdout
     sys.stdout = NullOut()
     try:
@@ -332,11 +503,16 @@ def replay(ctx, case):
         for v in ('mask_sift', 'ensemble_sift', 'complete_ensemble_sift'):
             world.reset()
             world.base[v] = world.run_variant(v, 'omit')
+        world.kw_baselines()
         run_history(ctx, world, case['start'], case['ops'], case.get('variants'))
         world.reset()
     finally:
         sys.stdout = old
 
+
+if __name__ == '__main__' and sys.argv[1] == '--fd':
+    fd_main(json.loads(sys.argv[2]))
+    sys.exit(0)
 
 if __name__ == '__main__':
     # fresh-interpreter replay (no reset logic at all): prints the trace
@@ -348,6 +524,7 @@ if __name__ == '__main__':
     w = World(spec['logfile'])
     for v in ('mask_sift', 'ensemble_sift', 'complete_ensemble_sift'):
         w.base[v] = w.run_variant(v, 'omit')
+    w.kw_baselines()
     w.reset = lambda: None
     c = Ctx('C20', 'quick', 0, 0, 1, 600)
     tr = run_history(c, w, spec['start'], spec['ops'], spec['variants'])
